@@ -392,6 +392,8 @@ fn effect_bodies() -> Vec<E> {
 fn add_effect(n: &E, body: &E) -> Option<E> {
     match n {
         E::Int(_) | E::Float(_) | E::Str(_) | E::Sym(_) | E::Unit | E::True | E::False | E::Input | E::Ident(_) | E::Group(_) => Some(E::Effect(n.clone().b(), body.clone().b())),
+        // (not generated: directly after a finished suffix operation, `{5}~~ [0]` - the unchanged tree already mishandles
+        // what follows such a block, see DESIGN 10.7)
         _ => None,
     }
 }
@@ -444,6 +446,25 @@ fn compare(kind: &str, chain: &str, orig_src: &str, new_src: &str, input: &V, ba
             };
             acc.count("trees_compared");
             if !same {
+                // structural root cause of a recorded finding: a block was added after a finished suffix operation and a
+                // sub-expression separator that follows it turned into an implicit list (decided on the two trees)
+                let seps = |t: &Tree| {
+                    let x = t.sexpr();
+                    x.matches("(ExpressionSeparator:").count() + x.matches("(Subexpression:").count()
+                };
+                let lists = |t: &Tree| t.sexpr().matches("(List:").count();
+                let after_suffix = {
+                    let x = b.sexpr();
+                    ["(SideEffect:[ (EmptyApply:", "(SideEffect:[ (AccessRightInternal:", "(SideEffect:[ (AccessLengthInternal:"].iter().any(|p| x.contains(p))
+                };
+                if after_suffix && seps(b) < seps(a) && lists(b) > lists(a) && chain.contains("add-effect-free-block") {
+                    acc.violation(
+                        "tree|separator-after-block-after-suffix-operation-becomes-list".to_string(),
+                        format!("{} turns {:?} into {:?} and the parse tree changes: {} became {}", chain, orig_src, new_src, a.sexpr(), b.sexpr()),
+                        payload(),
+                    );
+                    return;
+                }
                 acc.violation(
                     format!("tree|{}", kind),
                     format!("{} turns {:?} into {:?} and the parse tree changes: {} became {}", chain, orig_src, new_src, a.sexpr(), b.sexpr()),
